@@ -284,8 +284,8 @@ pub fn txt_text(tid: u64, val: u64, mode: u8) -> String {
     let mut r = crate::rng::Rng::derive(tid, val, mode as u64 + 11);
     // besides the guide strings themselves: 2-, 3- and 4-byte characters, among them some whose low
     // byte alone would be an ASCII letter or a line feed (U+0142, U+0161, U+010A)
-    const ALPHA: [&str; 21] = [
-        "a", "b", "|", "`", "-", " ", "  ", "|   ", "`-- ", "|-- ", "é", "x", "    ", "7", "\r", "\t", "ł", "š", "Ċ", "€", "𝄞",
+    const ALPHA: [&str; 23] = [
+        "a", "b", "|", "`", "-", " ", "  ", "|   ", "`-- ", "|-- ", "é", "x", "    ", "7", "\r", "\t", "ł", "š", "Ċ", "€", "𝄞", "\u{a0}", "\u{3000}",
     ];
     let nlines = match r.below(10) {
         0..=3 => 1,
@@ -307,6 +307,15 @@ pub fn txt_text(tid: u64, val: u64, mode: u8) -> String {
         let mut s = String::new();
         for _ in 0..k {
             s.push_str(ALPHA[r.below(ALPHA.len())]);
+        }
+        if r.chance(1, 120) {
+            // now and then a VERY long line (longer than any buffer a printer is likely to keep)
+            let n = [1023usize, 1024, 1025, 2500, 9000][r.below(5)];
+            let unit = ALPHA[r.below(ALPHA.len())];
+            while s.len() < n {
+                s.push_str(unit);
+                s.push('q');
+            }
         }
         if r.chance(1, 2) {
             s.push_str(&format!("{}m{}", tid, mode));
